@@ -33,6 +33,10 @@ ASSUMPTIONS = [
     "3 lam precision^2 + rounding) + eps*max|transformed sample|",
     "expected-utility losses restricted to |a x| <= 30 (finite values) and positive samples for the isoelastic loss",
 ]
+ANCHORS = ['pfhedge.nn.functional:entropic_risk_measure',
+           'pfhedge.nn.functional:expected_shortfall',
+           'pfhedge.nn.functional:topp',
+           'pfhedge.nn.functional:quadratic_cvar']
 DECIDING = ["ERM.monotone", "ERM.cash", "ERM.convex", "ERM.bounds", "ERM.a_monotone", "ES.monotone", "ES.cash", "ES.convex", "ES.homogeneous",
             "ES.p_monotone", "ES.bounds", "QCVaR.monotone", "QCVaR.cash", "QCVaR.convex", "QCVaR.bounds", "EntropicLoss.monotone_convex",
             "IsoelasticLoss.monotone_convex"]
